@@ -8,7 +8,7 @@
 From stdpp Require Import gmap numbers list.
 From Coq Require Import ZArith.
 Require Import Model.Bytes Model.Bank Model.Hashes Model.L1 Model.L1OutSpec.
-Require Import Proofs.L1OutLemmas Proofs.C05Proofs.
+Require Import Proofs.L1OutLemmas Proofs.C05Proofs Proofs.C05Hist.
 
 (* A withdrawal is finalized at block time [now e] only against a STORED output of that bridge
    whose window has elapsed in unix seconds; hence never earlier than one second before
@@ -19,6 +19,32 @@ Theorem C05_window : ∀ c e s sender b idx sq proofs from to d amt v sr bh s' r
          ((o_time o + c_period x) / second ≤ now e / second)%Z ∧
          (o_time o + c_period x - second < now e)%Z.
 Proof. exact c05_window. Qed.
+
+(* Every output stored in a state reachable from the empty chain (time-monotone history h) was
+   written by a successful proposal step of h for exactly that bridge and index, and carries the
+   block time and height of that step. *)
+Theorem C05_stored_time_is_proposal_time : ∀ c h t0 b i o,
+  mono_from t0 h → outputs (run c init_state h).1 !! (b, i) = Some o →
+  ∃ h1 e p l2 root h2,
+    h = h1 ++ (e, MPropose p b i l2 root) :: h2 ∧
+    step c e (run c init_state h1).1 (MPropose p b i l2 root) =
+      (propose_post e (run c init_state h1).1 b i l2 root, Ok RNone) ∧
+    o = {| o_root := root; o_l1h := height e; o_time := now e; o_l2 := l2 |}.
+Proof. exact c05_stored_time_is_proposal_time. Qed.
+
+(* The window end to end: a claim accepted after history h at block time [now e] was made
+   against an output created by a successful proposal INSIDE h at block time [now ep], and
+   now e / 10^9 >= (now ep + period) / 10^9 for the period of the bridge. *)
+Theorem C05_window_history : ∀ c h t0 e sender b idx sq proofs from to d amt v sr bh s' r,
+  mono_from t0 h →
+  step c e (run c init_state h).1 (MFinalize sender b idx sq proofs from to d amt v sr bh) = (s', Ok r) →
+  ∃ h1 ep p l2 root h2 x,
+    h = h1 ++ (ep, MPropose p b idx l2 root) :: h2 ∧
+    step c ep (run c init_state h1).1 (MPropose p b idx l2 root) =
+      (propose_post ep (run c init_state h1).1 b idx l2 root, Ok RNone) ∧
+    configs (run c init_state h).1 !! b = Some x ∧
+    ((now ep + c_period x) / second ≤ now e / second)%Z ∧ (now ep + c_period x - second < now e)%Z.
+Proof. exact c05_window_history. Qed.
 
 (* With a period of at least one second an output is never final within the unix second in
    which it was proposed. *)
@@ -126,6 +152,8 @@ Theorem C05_example :
 Proof. exact (conj ex5_inv (conj ex5_mono ex5_results)). Qed.
 
 Print Assumptions C05_window.
+Print Assumptions C05_stored_time_is_proposal_time.
+Print Assumptions C05_window_history.
 Print Assumptions C05_not_in_same_second.
 Print Assumptions C05_period_positive.
 Print Assumptions C05_period_positive_create.
